@@ -6,40 +6,100 @@ example (X[i:i+1], args[0][i:i+1], ...) in evaluation mode with gradients disabl
 per-example outputs are concatenated in input order (per output for tuple / list models).
 
  kind 'rec'    exact-integer *recording* models without parameters: the main output of example i is
-               the concatenation of the complete row X[i] and of the complete rows args[k][i], so any
-               mis-pairing / re-ordering / dropped or duplicated example changes the result and
-               nothing can cancel; further outputs have other shapes and dtypes (int64 (b,2,1),
-               float64 (b,)).  The model logs (self.training, torch.is_grad_enabled()) at every call.
+               the concatenation of the complete row X[i] and of the complete rows args[k][i] (plus a
+               code of the dtype in which X and every args entry reached the model), so any
+               mis-pairing / re-ordering / dropped or duplicated example / silent cast changes the
+               result and nothing can cancel; further outputs have other shapes and dtypes (int64
+               (b,2,1), float64 (b,), bool (b,1)).  The model logs (self.training, some module of
+               the tree in training mode, torch.is_grad_enabled()) at every call.
+ kind 'ext'    the same recording model on the input classes the plain sweep never passes
+               (every choice below is drawn from the seeded generator, (n, b, #args) are enumerated):
+                 * the model is handed over in one of 5 states: train, eval, top-level flag eval but
+                   a child / only a grand-child in training mode (model.eval(); child.train()),
+                   top-level train but child eval - predict must run ALL of it in evaluation mode;
+                 * X / args are non-contiguous views: every other row of a larger tensor (the rows in
+                   between and the storage offset must be neither used nor written), a permuted tensor
+                   whose leading dimension has stride 1, args expanded from one row (stride 0), args[0]
+                   being the very object X and args[2] the very object args[1];
+                 * X of rank 1, 2, 3, 4; X dtypes incl. uint8 / int32 / float16; args pool rotated
+                   (int64 with values up to 2**40, float64, int32, bool, float32);
+                 * models WITH a parameter of dtype float32 / float64 / float16 (predict then casts X;
+                   all values are exactly representable, see 'Not asserted');
+                 * further output kinds: named tuple, list of 4 (with a bool output), the inputs
+                   themselves handed back (views of X / args), 2 output rows per example, a model
+                   that returns rows only for some examples (0-row batches);
+                 * batch sizes 2n, 10**9, default (32) with n > 32 up to 100, every b with n % b == 1;
+                 * verbose=True (progress bar swallowed), device=torch.device('cpu').
+ kind 'seq'    call histories on ONE model object: 3-5 predict calls with changing n / b / number of
+               args / model state, some on the very same X object whose content was changed in place
+               in between - every call must satisfy the statement (nothing may be carried over).
  kind 'mode'   float32 models with parameters whose train and eval behaviour differ (Dropout,
-               BatchNorm1d with non-trivial running statistics, both), handed over in train mode.  All
-               weights, inputs and statistics are small integers (BatchNorm: eps = 1, running_var = 3,
-               so 1/sqrt(var+eps) = 1/2), hence float32 arithmetic is exact and the comparison is
-               bitwise.  Also: outputs do not require grad, BatchNorm statistics are not updated.
+               BatchNorm1d with non-trivial running statistics, both), handed over in train mode or
+               in a mixed state (top-level eval, dropout / batch-norm child in training mode; or the
+               reverse).  All weights, inputs and statistics are small integers (BatchNorm: eps = 1,
+               running_var = 3, so 1/sqrt(var+eps) = 1/2), hence float32 arithmetic is exact and the
+               comparison is bitwise.  Also: outputs do not require grad, BatchNorm statistics are
+               not updated.
  kind 'reject' one args entry gets a different leading dimension (n-1, n+1, 1, 2n, 0, n+b); the model
-               used here ignores the content of args, so only predict's own check can reject.
+               used here ignores the content of args, so only predict's own check can reject.  Also
+               with batch_size omitted / 1 / n, a bad entry that is an expanded (stride-0) view, a
+               model with parameters, every hand-over state.
 
 Not asserted (the statement does not say it): the container type of a multi-output result (list vs
-tuple), the mode of the model after the call, how many examples the model sees per call.
+tuple), the mode of the model after the call, how many examples the model sees per call, the dtype
+in which X reaches a model that HAS parameters (predict casts X to the parameter dtype; the values
+used are exact in that dtype and the model computes in float64, so the cast is invisible), whether
+the result shares memory with X for a model that hands its input back, the content of stderr.
+A model that writes into its own input would write into X through predict (the batches are views);
+that is the model's doing and is not exercised.
 """
+import collections
 import copy
+import io
+import random
+import sys
 
 import torch
 
 from tangermeme.predict import predict
 
+torch.set_num_threads(1)
+
 OUT_KINDS = ('tensor', 'tuple1', 'tuple2', 'tuple3', 'list1', 'list2', 'list3')
-N_OUT = {'tensor': 1, 'tuple1': 1, 'tuple2': 2, 'tuple3': 3, 'list1': 1, 'list2': 2, 'list3': 3}
+N_OUT = {'tensor': 1, 'tuple1': 1, 'tuple2': 2, 'tuple3': 3, 'list1': 1, 'list2': 2, 'list3': 3, 'list4': 4, 'ntuple2': 2}
 XDTYPES = {'float64': torch.float64, 'float32': torch.float32, 'int64': torch.int64, 'int8': torch.int8}
+
+# --- extended input classes (kind 'ext' / 'seq')
+EXT_OUT = OUT_KINDS + ('ntuple2', 'list4', 'ident', 'rep2', 'filter')
+EXT_XD = dict(XDTYPES, uint8=torch.uint8, int32=torch.int32, float16=torch.float16)
+PDTYPES = {'float32': torch.float32, 'float64': torch.float64, 'float16': torch.float16}
+LAYOUTS = ('contig', 'strided', 'permuted', 'expanded', 'alias')
+XSHAPES = {'r1': (), 'r2': (5,), 'r3': (2, 3), 'r4': (2, 1, 3)}
+MSTATES = ('train', 'eval', 'top-eval-sub-train', 'top-eval-deep-train', 'top-train-sub-eval')
+CALLS = ('kw', 'verbose', 'devobj')
+DT_CODE = {torch.float64: 1, torch.float32: 2, torch.float16: 3, torch.int64: 4, torch.int32: 5, torch.int8: 6,
+           torch.uint8: 7, torch.bool: 8, torch.bfloat16: 9, torch.int16: 10}
+NT2 = collections.namedtuple('NT2', ['first', 'second'])
 
 SCOPE = {
     'quick': ('recording models: every n in 1..40 x every batch size b in 1..n+3 x 0-3 extra arguments (940 x 4 combinations), '
               '3 of the 7 output kinds {tensor, tuple of 1/2/3, list of 1/2/3} per combination (rotating), X dtype rotating over '
               'float64/float32/int64/int8, args passed as tuple/list (None or empty for 0 args); dropout / batch-norm / both models handed over in train mode: every n in 1..40 x every b in 1..n+3 '
               'x {0,1} extra arguments (one model kind per combination, rotating); rejection: every n in 1..40 x 1-3 args x every position of the bad entry x leading '
-              'dimensions {n-1, n+1, 1, 2n, 0, n+b} x 2 batch sizes; batch_size omitted (default 32) for every n'),
+              'dimensions {n-1, n+1, 1, 2n, 0, n+b} x 2 batch sizes; batch_size omitted (default 32) for every n. '
+              'EXTENDED (run first): every n in 1..40 and n in {41,63,64,65,96,97,100} x b in {1,2,3,n-1,n,n+1,2n,10**9,default, every b<n with n%b==1 (up to 3)} x 0-3 args, '
+              'each with a seeded draw of: hand-over state of the model (train / eval / top-level eval with a child or only a grand-child in training mode / top train with child eval), '
+              'memory layout of X and args (contiguous, every-other-row view with offset, permuted, stride-0 expanded args, args aliasing X and each other), X rank 1-4, '
+              'X dtype (7), rotated args pool (int64 up to 2**40, float64, int32, bool, float32), model without / with a float32/float64/float16 parameter, '
+              '12 output kinds (7 + named tuple, list of 4 incl. bool, inputs handed back, 2 rows per example, rows for some examples only), verbose=True, device object; '
+              'call histories: 3-5 consecutive predict calls on one model object (changing n, b, #args, model state, X changed in place between calls), 6 per n; '
+              'dropout / batch-norm / both models in mixed states (top-level eval + child train, top-level train + child eval, eval): every n x b in {1,2,n,n+2,default} x 3 states; '
+              'rejection additionally with batch_size omitted / 1 / n, expanded bad entry, model with parameter, every hand-over state'),
     'thorough': ('recording models: every n in 1..40 x every b in 1..n+3 x 0-3 extra arguments x all 7 output kinds x 3 data seeds, X dtype rotating; '
                  'dropout / batch-norm / both models: every n x every b x {0,1} extra arguments x all 3 model kinds; rejection as in quick with every batch size in {1, n, n+3}; '
-                 'additionally n in {41..43, 64, 97} with b in 1..n+3 for tensor / tuple3 outputs'),
+                 'additionally n in {41..43, 64, 97} with b in 1..n+3 for tensor / tuple3 outputs. '
+                 'EXTENDED (run first) as in quick but every b in 1..n+3 plus {2n, 10**9, default} with 4 seeded draws per (n, b, #args), 20 call histories per n, '
+                 'mixed-state dropout / batch-norm models for every b in 1..n+3 x all 3 model kinds x 4 states'),
 }
 
 
@@ -47,29 +107,102 @@ SCOPE = {
 # models
 # ----------------------------------------------------------------------------------------------
 
-class Rec(torch.nn.Module):
-    """parameter-free, row-wise, exact-integer recording model"""
+class Probe(torch.nn.Module):
+    """identity; exists only so that the recording model has a grand-child whose mode can differ"""
 
-    def __init__(self, out, tolerant=False):
+    def forward(self, x):
+        return x
+
+
+class Wrap(torch.nn.Module):
+    def __init__(self):
+        super().__init__()
+        self.probe = Probe()
+
+    def forward(self, x):
+        return self.probe(x)
+
+
+def _some_training(model):
+    return any(bool(m.training) for m in model.modules())
+
+
+class Rec(torch.nn.Module):
+    """row-wise, exact-integer recording model; parameter-free unless pdtype is given"""
+
+    def __init__(self, out, tolerant=False, pdtype=None):
         super().__init__()
         self.out = out
         self.tolerant = tolerant
         self.log = []
+        self.inner = Wrap()
+        self.has_param = pdtype is not None
+        if pdtype is not None:
+            self.w = torch.nn.Parameter(torch.zeros(2, dtype=PDTYPES[pdtype]))
 
     def forward(self, X, *args):
-        self.log.append((bool(self.training), bool(torch.is_grad_enabled()), int(X.shape[0])))
+        # the children are never invoked (they compute nothing); their mode is read here
+        self.log.append((self.training, torch.is_grad_enabled(), X.shape[0],
+                         self.training or self.inner.training or self.inner.probe.training))
         b = X.shape[0]
-        feats = [X.reshape(b, -1).to(torch.float64)]
-        if not self.tolerant:
-            feats += [a.reshape(b, -1).to(torch.float64) for a in args]
+        if self.out == 'ident':                           # the inputs themselves, untouched
+            return X if not args else (X,) + tuple(args)
+        if self.tolerant:
+            args = ()
+        # dtype in which the inputs arrive (for X only if predict has no parameter dtype to cast to)
+        dts = (None if self.has_param else X.dtype,) + tuple(a.dtype for a in args)
+        codes = _CODES.get(dts)
+        if codes is None:
+            codes = _CODES[dts] = torch.tensor([[0 if d is None else DT_CODE.get(d, 99) for d in dts]], dtype=torch.float64)
+        feats = [X.reshape(b, -1).to(torch.float64)] + [a.reshape(b, -1).to(torch.float64) for a in args] + [codes.expand(b, -1)]
         F = torch.cat(feats, dim=1)                       # the complete rows: identity of the pairing
-        o2 = (F[:, :2].to(torch.int64) * 3 + 1).reshape(b, 2, 1)
-        o3 = (F * torch.arange(1, F.shape[1] + 1, dtype=torch.float64)).sum(dim=1)
-        k = N_OUT[self.out]
-        outs = [F, o2, o3][:k]
         if self.out == 'tensor':
-            return outs[0]
+            return F
+        if self.out == 'rep2':                            # two output rows per example
+            return F.repeat_interleave(2, dim=0)
+        if self.out == 'filter':                          # rows only for the examples with an even X[i, 0, ..., 0]
+            return F[F[:, 0].to(torch.int64) % 2 == 0]
+        k = N_OUT[self.out]
+        outs = [F]
+        if k >= 2:
+            outs.append((F[:, :2].to(torch.int64) * 3 + 1).reshape(b, 2, 1))
+        if k >= 3:
+            outs.append((F * torch.arange(1, F.shape[1] + 1, dtype=torch.float64)).sum(dim=1))
+        if k >= 4:
+            outs.append(F[:, :1].to(torch.int64) % 2 == 1)
+        if self.out == 'ntuple2':
+            return NT2(*outs)
         return tuple(outs) if self.out.startswith('tuple') else list(outs)
+
+
+_CODES = {}
+
+
+def _set_state(model, mstate):
+    """hand-over state of the model; 'sub' = the direct children that matter, 'deep' = only a grand-child"""
+    if isinstance(model, Rec):
+        subs, deep = [model.inner], [model.inner.probe]
+    else:
+        subs = [m for m in (model.drop, model.bn) if m is not None]
+        deep = subs
+    if mstate == 'train':
+        model.train()
+    elif mstate == 'eval':
+        model.eval()
+    elif mstate == 'top-eval-sub-train':
+        model.eval()
+        for m in subs:
+            m.train()
+    elif mstate == 'top-eval-deep-train':
+        model.eval()
+        for m in deep:
+            m.train()
+    elif mstate == 'top-train-sub-eval':
+        model.train()
+        for m in subs:
+            m.eval()
+    else:
+        raise ValueError('unknown model state %r' % (mstate,))
 
 
 class ModeModel(torch.nn.Module):
@@ -95,7 +228,7 @@ class ModeModel(torch.nn.Module):
             self.lin.bias.copy_(torch.randint(-3, 4, (H,), generator=g).float())
 
     def forward(self, X, a=None):
-        self.log.append((bool(self.training), bool(torch.is_grad_enabled()), int(X.shape[0])))
+        self.log.append((bool(self.training), bool(torch.is_grad_enabled()), int(X.shape[0]), _some_training(self)))
         h = X
         if self.bn is not None:
             h = self.bn(h)
@@ -136,6 +269,15 @@ def _per_example(model, X, args):
     return [torch.cat([row[o] for row in rows]) for o in range(len(rows[0]))]
 
 
+def _per_example2(model, X, args):
+    """(the model returns a bare tensor, right-hand side of the statement)"""
+    model.eval()
+    with torch.no_grad():
+        single = isinstance(model(X[0:1], *[a[0:1] for a in args]), torch.Tensor)
+    model.log.clear()
+    return single, _per_example(model, X, args)
+
+
 def _compare(y, expected, single):
     out = []
     if single:
@@ -154,6 +296,8 @@ def _compare(y, expected, single):
             continue
         if got.dtype != exp.dtype:
             out.append('output %d has dtype %s, the concatenation over examples has dtype %s' % (o, got.dtype, exp.dtype))
+        if got.numel() == 0:
+            continue
         neq = (got.to(torch.float64) != exp.to(torch.float64)).reshape(got.shape[0], -1).any(dim=1)
         if bool(neq.any()):
             i = int(neq.nonzero()[0])
@@ -166,23 +310,33 @@ def _flags(log):
     out = []
     if not log:
         return ['the model was never called']
-    if any(t for (t, g, b) in log):
+    if any(e[0] for e in log):
         out.append('the model was called in training mode')
-    if any(g for (t, g, b) in log):
+    elif any(len(e) > 3 and e[3] for e in log):
+        out.append('a sub-module of the model was still in training mode during the forward call (top-level flag eval)')
+    if any(e[1] for e in log):
         out.append('the model was called with gradients enabled')
     return out
 
 
-def _call_predict(model, X, args, b, args_as):
+def _call_predict(model, X, args, b, args_as, call='kw'):
     if args_as == 'none':
         a = None
     elif args_as == 'list':
         a = list(args)
     else:
         a = tuple(args)
-    if b is None:
-        return predict(model, X, args=a, device='cpu')
-    return predict(model, X, args=a, batch_size=b, device='cpu')
+    kw = {'args': a, 'device': torch.device('cpu') if call == 'devobj' else 'cpu'}
+    if b is not None:
+        kw['batch_size'] = b
+    if call != 'verbose':
+        return predict(model, X, **kw)
+    err = sys.stderr
+    sys.stderr = io.StringIO()                            # the progress bar goes here
+    try:
+        return predict(model, X, verbose=True, **kw)
+    finally:
+        sys.stderr = err
 
 
 # ----------------------------------------------------------------------------------------------
@@ -233,7 +387,7 @@ def check_mode(case):
     ref = copy.deepcopy(model)
     expected = _per_example(ref, X, args)
     X0, args0 = X.clone(), [a.clone() for a in args]
-    model.train()
+    _set_state(model, case.get('mstate', 'train'))
     viol = []
     try:
         y = _call_predict(model, X, args, b, 'tuple' if nargs else 'none')
@@ -259,13 +413,133 @@ def check_reject(case):
     X, args = _rec_data(n, nargs, seed, 'float64')
     g = torch.Generator().manual_seed(seed + 5)
     shape = (m,) + tuple(args[k].shape[1:])
-    args[k] = torch.randint(0, 100, shape, generator=g).to(args[k].dtype)
-    model = Rec(case.get('out', 'tensor'), tolerant=True)
+    if case.get('bad_layout') == 'expanded' and m >= 1:
+        args[k] = torch.randint(0, 100, (1,) + shape[1:], generator=g).to(args[k].dtype).expand(shape)
+    elif case.get('bad_layout') == 'strided':
+        args[k] = torch.randint(0, 100, (2 * m + 1,) + shape[1:], generator=g).to(args[k].dtype)[1::2]
+    else:
+        args[k] = torch.randint(0, 100, shape, generator=g).to(args[k].dtype)
+    assert args[k].shape[0] == m != n
+    model = Rec(case.get('out', 'tensor'), tolerant=True, pdtype=case.get('pdtype'))
+    _set_state(model, case.get('mstate', 'eval'))
     try:
-        _call_predict(model, X, args, b, case.get('args_as', 'tuple'))
+        _call_predict(model, X, args, b, case.get('args_as', 'tuple'), case.get('call', 'kw'))
     except Exception:
         return []
     return ['args[%d] has leading dimension %d but X has %d examples, and predict returned a result instead of rejecting' % (k, m, n)]
+
+
+def _ext_data(n, nargs, seed, xdtype, xshape, layout, arot):
+    """X, args (possibly non-contiguous / aliasing views) and the list of underlying base tensors"""
+    g = torch.Generator().manual_seed(seed * 1013 + n * 7 + 1)
+    bases = []
+
+    def mk(tail, lo, hi, dtype, ident, lay):
+        tail = tuple(tail)
+        if lay == 'permuted' and not tail:
+            lay = 'strided'
+        if dtype == torch.bool:
+            raw = lambda shape: torch.randint(0, 2, shape, generator=g).to(torch.bool)
+        else:
+            raw = lambda shape: torch.randint(lo, hi, shape, generator=g).to(dtype)
+        if lay == 'strided':                              # rows 1, 3, 5, ... of a larger tensor
+            base = raw((2 * n + 3,) + tail)
+            v = base[1::2][:n]
+        elif lay == 'permuted':                           # leading dimension has stride 1
+            base = raw(tail + (n,))
+            v = base.movedim(-1, 0)
+        elif lay == 'expanded':                           # one row, stride 0
+            base = raw((1,) + tail)
+            v = base.expand((n,) + tail)
+        else:
+            base = raw((n,) + tail)
+            v = base
+        if ident is not None and lay != 'expanded' and dtype != torch.bool:
+            v[(slice(None),) + (0,) * len(tail)] = ident.to(dtype)       # row identity, written through the view
+        assert v.shape[0] == n
+        bases.append(base)
+        return v
+
+    small = xdtype in ('int8', 'uint8')
+    xl = 'contig' if layout in ('expanded', 'alias') else layout
+    X = mk(XSHAPES[xshape], 0, 100 if small else 1000, EXT_XD[xdtype], torch.arange(n), xl)
+    al = 'contig' if layout == 'alias' else layout
+    pool = [((), 0, 2 ** 40, torch.int64), ((2,), -500, 500, torch.float64), ((1, 3), 0, 2 ** 15, torch.int32),
+            ((2,), 0, 2, torch.bool), ((3,), 0, 2 ** 20, torch.float32)]
+    args = []
+    for j in range(nargs):
+        tail, lo, hi, dt = pool[(arot + j) % len(pool)]
+        args.append(mk(tail, lo, hi, dt, torch.arange(n) * (j + 2) + 7, al))
+    if layout == 'alias' and nargs >= 1:
+        args[0] = X                                       # the very same object
+        if nargs >= 3:
+            args[2] = args[1]
+    return X, args, bases
+
+
+def _meta(t):
+    return (tuple(t.shape), tuple(t.stride()), t.dtype, t.storage_offset(), t.data_ptr())
+
+
+def _run_one(model, X, args, bases, b, args_as, call, single, expected):
+    """one predict call on prepared inputs, all clauses of the statement"""
+    bases0 = [t.clone() for t in bases]
+    metas = [_meta(t) for t in [X] + list(args)]
+    model.log.clear()
+    try:
+        y = _call_predict(model, X, args, b, args_as, call)
+    except Exception as ex:
+        return ['predict raised %s (%s) on a valid request' % (type(ex).__name__, str(ex)[:80])]
+    viol = _compare(y, expected, single)
+    viol += _flags(model.log)
+    ys = [y] if isinstance(y, torch.Tensor) else [t for t in y if isinstance(t, torch.Tensor)] if isinstance(y, (list, tuple)) else []
+    if any(t.requires_grad for t in ys):
+        viol.append('the result is attached to an autograd graph (gradients were enabled)')
+    if any(not torch.equal(t, t0) for t, t0 in zip(bases, bases0)):
+        viol.append('X, an args entry or the memory around them was modified')
+    if metas != [_meta(t) for t in [X] + list(args)]:
+        viol.append('shape / stride / dtype / storage of X or an args entry was modified')
+    return viol
+
+
+_EXT_CACHE = {}
+
+
+def check_ext(case):
+    n, b, nargs, out, seed = case['n'], case['b'], case['nargs'], case['out'], case['seed']
+    xdtype, xshape, layout, pdtype, arot = case['xdtype'], case['xshape'], case['layout'], case['pdtype'], case['arot']
+    X, args, bases = _ext_data(n, nargs, seed, xdtype, xshape, layout, arot)
+    key = (n, nargs, out, seed, xdtype, xshape, layout, pdtype, arot)
+    if key not in _EXT_CACHE:
+        if len(_EXT_CACHE) > 3000:
+            _EXT_CACHE.clear()
+        _EXT_CACHE[key] = _per_example2(Rec(out, pdtype=pdtype), X, args)
+    single, expected = _EXT_CACHE[key]
+    model = Rec(out, pdtype=pdtype)
+    _set_state(model, case['mstate'])
+    return _run_one(model, X, args, bases, b, case['args_as'], case['call'], single, expected)
+
+
+def check_seq(case):
+    """several predict calls on one model object; step: {n, b, nargs, seed, mstate, reuse, layout, call}"""
+    out, pdtype, xdtype, xshape = case['out'], case['pdtype'], case['xdtype'], case['xshape']
+    model = Rec(out, pdtype=pdtype)
+    prev = None
+    viol = []
+    for j, st in enumerate(case['steps']):
+        if st['reuse'] and prev is not None and prev[0].shape[0] == st['n'] and len(prev[1]) == st['nargs']:
+            X, args, bases = prev                         # the same objects, content changed in place
+            for t in bases:
+                if t.dtype != torch.bool:
+                    t.add_(1)
+        else:
+            X, args, bases = _ext_data(st['n'], st['nargs'], st['seed'], xdtype, xshape, st['layout'], j)
+        prev = (X, args, bases)
+        single, expected = _per_example2(Rec(out, pdtype=pdtype), X, args)
+        _set_state(model, st['mstate'])
+        w = _run_one(model, X, args, bases, st['b'], 'tuple' if (st['nargs'] or j % 2) else 'none', st['call'], single, expected)
+        viol += ['call %d of %d on the same model: %s' % (j + 1, len(case['steps']), t) for t in w]
+    return viol
 
 
 def _finding(w):
@@ -292,7 +566,7 @@ def _finding(w):
     return 'other'
 
 
-CHECKS = {'rec': check_rec, 'mode': check_mode, 'reject': check_reject}
+CHECKS = {'rec': check_rec, 'mode': check_mode, 'reject': check_reject, 'ext': check_ext, 'seq': check_seq}
 MAX_PER_FINDING = 25
 
 
@@ -312,6 +586,86 @@ def _do(rep, case, section, count, sample=None):
 # run
 # ----------------------------------------------------------------------------------------------
 
+def _draw_ext(rng, n, b, nargs, seed):
+    """the free choices of one 'ext' case, from the seeded generator"""
+    out = rng.choice(EXT_OUT)
+    layout = rng.choice(LAYOUTS)
+    if nargs == 0 and layout in ('expanded', 'alias'):
+        layout = rng.choice(('strided', 'permuted'))
+    pdtype = rng.choice((None, None, 'float32', 'float64', 'float16'))
+    if out == 'ident':
+        pdtype = None                                     # predict's cast of X would show in the handed-back input
+    return {'kind': 'ext', 'n': n, 'b': b, 'nargs': nargs, 'out': out, 'seed': seed,
+            'xdtype': rng.choice(list(EXT_XD)), 'xshape': rng.choice(list(XSHAPES)), 'layout': layout, 'pdtype': pdtype,
+            'arot': rng.randrange(5), 'mstate': rng.choice(MSTATES), 'call': rng.choice(CALLS + ('kw',)),
+            'args_as': rng.choice(('none', 'list')) if nargs == 0 else rng.choice(('tuple', 'list'))}
+
+
+def _ext_batch_sizes(n, thorough):
+    if thorough and n <= 40:
+        return list(range(1, n + 4)) + [2 * n, 10 ** 9, None]
+    bs = {1, 2, 3, n - 1, n, n + 1, 2 * n, 10 ** 9}
+    if n > 40:
+        bs |= {31, 32, 33}
+    bs |= set([b for b in range(2, n) if n % b == 1][:3])           # last batch holds exactly one example
+    return sorted(b for b in bs if b >= 1) + [None]
+
+
+def _draw_seq(rng, n, seed):
+    steps = []
+    for j in range(rng.randrange(3, 6)):
+        reuse = j > 0 and rng.random() < 0.4
+        m = steps[-1]['n'] if reuse else rng.choice((n, n, max(1, n - 1), n + 1, rng.randrange(1, 41)))
+        steps.append({'n': m, 'b': rng.choice((1, 2, 3, max(1, m - 1), m, m + 1, None, rng.randrange(1, m + 4))),
+                      'nargs': steps[-1]['nargs'] if reuse else rng.randrange(4), 'seed': seed + j, 'mstate': rng.choice(MSTATES),
+                      'reuse': reuse, 'layout': rng.choice(('contig', 'strided', 'permuted', 'expanded')), 'call': rng.choice(CALLS + ('kw',))})
+    out = rng.choice(EXT_OUT)
+    return {'kind': 'seq', 'out': out, 'pdtype': None if out == 'ident' else rng.choice((None, 'float32', 'float16')),
+            'xdtype': rng.choice(('float64', 'float32', 'int64', 'int32', 'float16')), 'xshape': rng.choice(list(XSHAPES)), 'steps': steps}
+
+
+def _run_extended(rep, seed0, count, order, thorough):
+    """the input classes the plain sweep does not pass; cheap, so it goes first"""
+    rng = random.Random(seed0 * 31 + 5)
+    kinds = ('dropout', 'bn', 'both')
+    mixed = ('top-eval-sub-train', 'top-train-sub-eval', 'eval') + (('train',) if thorough else ())
+    done = True
+    for n in order + [41, 63, 64, 65, 96, 97, 100]:
+        if rep.out_of_time():
+            done = False
+            break
+        for b in _ext_batch_sizes(n, thorough):
+            for nargs in range(4):
+                for t in range(4 if thorough else 1):
+                    case = _draw_ext(rng, n, b, nargs, seed0 + t)
+                    _do(rep, case, 'extended-input-classes', count, sample=case)
+        for t in range(20 if thorough else 6):
+            case = _draw_seq(rng, n, seed0 + 100 * t)
+            _do(rep, case, 'call-histories', count, sample=case)
+        if n > 40:
+            continue
+        # train / eval observable models in mixed hand-over states
+        bs = list(range(1, n + 4)) + [None] if thorough else sorted({1, 2, n, n + 2}) + [None]
+        for i, b in enumerate(bs):
+            for j, mstate in enumerate(mixed):
+                for kind in (kinds if thorough else (kinds[(n + i + j) % 3],)):
+                    case = {'kind': 'mode', 'model': kind, 'n': n, 'b': b, 'nargs': (n + i + j) % 2, 'seed': seed0, 'mstate': mstate}
+                    _do(rep, case, 'train-vs-eval-models(mixed-state)', count, sample=case)
+        # rejection: other batch sizes, layouts of the bad entry, models with parameters, hand-over states
+        for nargs in (1, 2, 3):
+            for b in (None, 1, n):
+                for mm in sorted({n - 1, n + 1, 1, 2 * n, 0, n + 32} - {n}):
+                    case = {'kind': 'reject', 'n': n, 'b': b, 'nargs': nargs, 'k': rng.randrange(nargs), 'm': mm, 'seed': seed0,
+                            'out': rng.choice(OUT_KINDS), 'args_as': rng.choice(('tuple', 'list')),
+                            'bad_layout': rng.choice(('contig', 'expanded', 'strided')), 'pdtype': rng.choice((None, 'float32', 'float16')),
+                            'mstate': rng.choice(MSTATES), 'call': rng.choice(CALLS)}
+                    _do(rep, case, 'rejection(extended)', count, sample=case)
+    if done:
+        rep.mark_exhaustive('extended input classes: every n in 1..40 (+7 larger n) x the listed batch sizes x 0-3 extra arguments, other choices drawn (seeded)')
+    else:
+        rep.note('time budget reached inside the extended section')
+
+
 def run(rep):
     thorough = rep.tier == 'thorough'
     seed0 = rep.rng.randrange(0, 10 ** 6)
@@ -322,6 +676,7 @@ def run(rep):
     ns = list(range(1, 41))
     # interleave small and large n so that a time-out still leaves every regime covered
     order = [ns[i // 2] if i % 2 == 0 else ns[-1 - i // 2] for i in range(len(ns))]
+    _run_extended(rep, seed0, count, order, thorough)
     for n in order:
         for b in list(range(1, n + 4)) + [None]:
             if rep.out_of_time():
